@@ -251,6 +251,15 @@ func BytesOfLit(text string) ([]byte, bool) { return nil, false }
 // Digest is sha256, uninterpreted and collision-free on symbolic input.
 func Digest(data []byte) [32]byte { return sha256.Sum256(data) }
 
+// DigestPrefixFree strengthens the engine's sha256 model: different inputs
+// differ within the first n digest bytes (n 0 switches it off). No effect natively.
+func DigestPrefixFree(n int) {}
+
+// DigestClass makes the engine assume that byte idx of every symbolic sha256
+// digest is rem modulo mod (mod 0 switches it off). Harnesses use it to stay
+// within one class of hashed-name lengths. No effect natively.
+func DigestClass(idx, mod, rem int) {}
+
 // Concretize forks the engine over all values of v.
 func Concretize(v int) int { return v }
 
